@@ -404,7 +404,7 @@ func (rn *runner) do(op Op, res *OpResult) {
 		res.Images = rec.Images
 		res.Attach = rec.Attach
 		res.Embedded = rec.Embedded
-		simrt.Event(0x7ace, simrt.HashString(res.Trace))
+		event(0x7ace, simrt.HashString(res.Trace))
 		if rn.spec.Dump != "" {
 			os.MkdirAll(rn.spec.Dump, 0o755)
 			os.WriteFile(filepath.Join(rn.spec.Dump, fmt.Sprintf("%s.t%d.%s.trace", rn.spec.ID, rn.task, op.ID)), []byte(strings.Join(rec.lines, "\n")+"\n"), 0o644)
